@@ -153,7 +153,11 @@ def run_for(pid: str, root: str | None = None, jobs: int = 16):
     root = project.root
     mod = importlib.import_module(f"verif.props.{pid.lower()}")
     muts: list[Mut] = list(getattr(mod, "MUTANTS", []))
-    base_v, base_k = _keys(pid, project)
+    try:
+        base_v, base_k = _keys(pid, project)
+    except AnalysisError as e:
+        return {"mutants": 0, "applied": 0, "killed": 0, "twins": 0, "twins_silent": 0, "skipped": 0, "seeded": 0, "seeded_detected": 0, "details": [],
+                "failures": [f"the check cannot analyse the unchanged tree: {e}"]}
     base = set(base_v) | base_k
     res = {"mutants": 0, "applied": 0, "killed": 0, "twins": 0, "twins_silent": 0, "skipped": 0, "seeded": 0, "seeded_detected": 0, "failures": [], "details": []}
     tasks, meta = [], []
